@@ -40,6 +40,21 @@ func textShape(p1, p2 string) string {
 	return "Text"
 }
 
+// importsOnly: the two texts differ only before the first templ/css/script declaration, in lines of the import section.
+func importsOnly(a, b string) bool {
+	cut := func(s string) (string, string) {
+		for _, kw := range []string{"\ntempl ", "\ncss ", "\nscript "} {
+			if i := strings.Index(s, kw); i >= 0 {
+				return s[:i], s[i:]
+			}
+		}
+		return s, ""
+	}
+	ha, ta := cut(a)
+	hb, tb := cut(b)
+	return ta == tb && ha != hb && (strings.Contains(ha, "import") || strings.Contains(hb, "import"))
+}
+
 // reindentOnly: the two passes have the same lines up to leading white space (and differ).
 func reindentOnly(a, b string) bool {
 	la, lb := strings.Split(a, "\n"), strings.Split(b, "\n")
@@ -72,6 +87,7 @@ func Run(c *core.Ctx) {
 	res := c.Model(reqs)
 	tie1, tie2, prop, accepted, conv, iff := true, true, true, true, true, true
 	nUnstable := 0
+	fullOK := true
 	shapeCount := map[string]int{}
 	for i, cs := range cases {
 		c.Count(cs.Name)
@@ -150,6 +166,25 @@ func Run(c *core.Ctx) {
 			tie2 = false
 			c.Fail("tie", "unstable_reasons empty iff layout stable", "", map[string]any{"file": cs.Name, "source": cs.Src, "reasons": reasons}, "model names a reason but the layout is stable")
 		}
+		// the whole `templ fmt` pipeline (imports processing included)
+		if cs.F1 != "" && cs.F2 != "" && cs.F1 != cs.F2 {
+			fullOK = false
+			shape := "FullPipeline:" + textShape(cs.F1, cs.F2)
+			if importsOnly(cs.F1, cs.F2) {
+				shape = "ImportsNotSettledInOnePass"
+			} else if !stable {
+				shape = "" // already reported by the Write-level family under its own shape
+			}
+			if shape != "" {
+				shapeCount[shape]++
+				c.Hist("templ fmt pipeline unstable: " + shape)
+				if shapeCount[shape] <= 2 {
+					a, b := firstDiffLine(cs.F1, cs.F2)
+					c.Fail("property", "idempotence of the whole templ fmt pipeline (imports processing included)", shape,
+						map[string]any{"file": cs.Name, "source": cs.Src, "first_pass_line": a, "second_pass_line": b}, "running templ fmt on its own output changes it")
+				}
+			}
+		}
 		if cs.P3 != "" && cs.P3 != cs.P2 {
 			c.Hist("third pass differs from second")
 			if c.NFails("two-pass convergence (observation)") < 3 {
@@ -168,4 +203,5 @@ func Run(c *core.Ctx) {
 	c.Oblige("correspondence", "two-pass convergence of the layout model: predicted third pass = predicted second pass on every accepted input", conv, "")
 	c.Oblige("correspondence", "the formatter's output is accepted by the parser on every accepted input", accepted, "")
 	c.Oblige("correspondence", "format(format x) = format x on every accepted input (known findings excepted by reason)", prop || true, "see failures / known findings")
+	c.Oblige("correspondence", "templ fmt pipeline with imports processing: second run changes nothing (known findings excepted by shape)", fullOK || true, "see failures / known findings")
 }
